@@ -79,9 +79,101 @@ def check(run, tier, seed):
                         n_quick=240, n_thorough=4000, gen_factory=mixed_gen,
                         describe='Random histories of all public mutators (all argument forms, all six edge types, both classes, '
                                  'lags of both signs) plus exhaustive short histories over a 3-name alphabet.')
+    bulk_equals_singles(run, tier, seed)
+
+
+def _bulk_case(rng, kind):
+    """a pre-state and the arguments of one bulk call, as plain data (objects are built afresh for every graph)"""
+    names = ['a', 'b', 'c', 'd', 'e'] if kind == 'Plain' else ['x', 'x lag(n=1)', 'y', 'y lag(n=1)', 'z lag(n=2)', 'z']
+    vts = list(H.VT)
+    pre_nodes = [(n, rng.choice(vts), rng.choice([None, {'p': n}])) for n in names if rng.random() < 0.4]
+    pre_edges = [(a, b) for a in names for b in names if a < b and rng.random() < 0.15]
+
+    def arg(n):
+        form = rng.choice(['str', 'str', 'node', 'node', 'tsnode' if kind == 'TS' else 'node'])
+        return (form, n, rng.choice(vts), rng.choice([None, {'unit': 'kg'}, {'w': [1, {'k': n}]}]))
+    which = rng.choice(['add_fully_connected_nodes', 'add_fully_connected_nodes', 'add_nodes_from'])
+    pool = names[:]
+    rng.shuffle(pool)
+    k = rng.randint(1, 2)
+    return dict(kind=kind, pre_nodes=pre_nodes, pre_edges=pre_edges, which=which, ins=[arg(n) for n in pool[:k]],
+                outs=[arg(n) for n in pool[k:k + rng.randint(1, 3)]])
+
+
+def _bulk_run(case, bulk):
+    import copy
+    from cai_causal_graph import CausalGraph, TimeSeriesCausalGraph
+    from cai_causal_graph.graph_components import Node, TimeSeriesNode
+    from .c03 import plain_snapshot
+    g = (CausalGraph if case['kind'] == 'Plain' else TimeSeriesCausalGraph)()
+    for n, vt, m in case['pre_nodes']:
+        g.add_node(n, variable_type=H.VT[vt], meta=copy.deepcopy(m))
+    for a, b in case['pre_edges']:
+        try:
+            g.add_edge(a, b)
+        except Exception:  # noqa: BLE001
+            pass
+
+    def obj(a):
+        form, n, vt, m = a
+        if form == 'str':
+            return n
+        return (TimeSeriesNode if form == 'tsnode' else Node)(n, variable_type=H.VT[vt], meta=copy.deepcopy(m))
+    ins, outs = [obj(a) for a in case['ins']], [obj(a) for a in case['outs']]
+    err = None
+    try:
+        if case['which'] == 'add_fully_connected_nodes':
+            if bulk:
+                g.add_fully_connected_nodes(ins, outs)
+            else:
+                for i in ins:
+                    for o in outs:
+                        g.add_edge(i, o)
+        else:
+            if bulk:
+                g.add_nodes_from(ins + outs)
+            else:
+                for x in ins + outs:
+                    g.add_node(x)
+    except Exception as e:  # noqa: BLE001
+        err = type(e).__name__
+    return err, plain_snapshot(g, case['kind'])
+
+
+def bulk_equals_singles(run, tier, seed):
+    """Bulk adders given Node / TimeSeriesNode OBJECTS (variable type, nested metadata) among plain identifiers: the state they leave and
+    the error class they raise must be those of the equivalent sequence of single add_edge / add_node calls (which the history check
+    compares with the model call by call)."""
+    import random
+    rng = random.Random(seed + 91)
+    n = 300 if tier == 'quick' else 4000
+    nbad = 0
+    for it in range(n):
+        case = _bulk_case(rng, 'Plain' if it % 3 else 'TS')
+        b, s = _bulk_run(case, True), _bulk_run(case, False)
+        if b != s:
+            nbad += 1
+            if nbad <= 2:
+                why = (f'{case["which"]} with Node objects leaves a different graph (or raises a different error: {b[0]} / {s[0]}) than the '
+                       f'equivalent sequence of single calls')
+                run.violation(dict(kind_of_case='bulk', case=case, why=why, replay_cmd='./check C01 --replay <this file>'), note=why)
+    run.coverage['bulk_calls_with_node_objects'] = n
+    run.oblige(f'bulk adders with Node objects == the equivalent single calls on {n} cases (state and error class)', nbad == 0,
+               '' if not nbad else f'{nbad} cases differ')
 
 
 def replay(run, path):
+    import json as _json
+    _c = _json.loads(open(path).read())
+    if _c.get('kind_of_case') == 'bulk':
+        case = _c['case']
+        for k in ('pre_nodes', 'pre_edges', 'ins', 'outs'):
+            case[k] = [tuple(x) for x in case[k]]
+        b, s = _bulk_run(case, True), _bulk_run(case, False)
+        print('bulk:', b[0], ' singles:', s[0], ' equal states:', b[1] == s[1])
+        if b != s:
+            run.violation(dict(_c), note='bulk adder differs from single calls')
+        return 1 if run.violations else 0
     return HP.replay_file(run, path, consistent, 'C01', divergence_is_violation=True)
 
 
